@@ -260,6 +260,13 @@ def _overrides(ctx, cfg):
             events = []
             from qucumber.callbacks import LambdaCallback
             cb = LambdaCallback(on_train_start=lambda s: events.append("start"))
+            for flag in (True, False):
+                st.stop_training = flag          # left over from an earlier run that was stopped: the refusal does not depend on it
+                try:
+                    st.fit(torch.zeros(4, 2, dtype=torch.double), epochs=1)
+                    ctx.holds("%s.fit without input_bases is refused whatever the stop flag says[stop_training=%s]" % (cls.__name__, flag), False, "returned normally")
+                except ValueError:
+                    ctx.holds("%s.fit without input_bases is refused whatever the stop flag says[stop_training=%s]" % (cls.__name__, flag), True)
             try:
                 st.fit(torch.zeros(4, 2, dtype=torch.double), epochs=1, callbacks=[cb])
                 ctx.holds("%s.fit without input_bases is refused" % cls.__name__, False)
